@@ -1,6 +1,7 @@
 package main
 
 import (
+	"go/constant"
 	"fmt"
 	"go/token"
 	"go/types"
@@ -389,15 +390,44 @@ func rulesExtract(p *Prog, r *Report, eng *Engine) {
 	consts := map[string]token.Pos{}
 	fieldsUsed := map[string]bool{}
 	var bad []string
+	// the text parts: operands of string concatenations and what is written to a strings.Builder / bytes.Buffer
+	type textPart struct {
+		op  ssa.Value
+		pos token.Pos
+	}
+	var parts []textPart
 	for _, b := range pr.Blocks {
 		for _, in := range b.Instrs {
-			bo, ok := in.(*ssa.BinOp)
-			if !ok || bo.Op != token.ADD || !isStringType(bo.Type()) {
-				continue
+			switch t := in.(type) {
+			case *ssa.BinOp:
+				if t.Op == token.ADD && isStringType(t.Type()) {
+					parts = append(parts, textPart{t.X, t.Pos()}, textPart{t.Y, t.Pos()})
+				}
+			case *ssa.Call:
+				callee := t.Call.StaticCallee()
+				if callee == nil || len(t.Call.Args) != 2 {
+					continue
+				}
+				switch callee.String() {
+				case "(*strings.Builder).WriteString", "(*bytes.Buffer).WriteString":
+					parts = append(parts, textPart{t.Call.Args[1], t.Pos()})
+				case "(*strings.Builder).WriteByte", "(*bytes.Buffer).WriteByte", "(*strings.Builder).WriteRune", "(*bytes.Buffer).WriteRune":
+					if c, ok := t.Call.Args[1].(*ssa.Const); ok && c.Value != nil && c.Value.Kind() == constant.Int {
+						consts[string(rune(c.Int64()))] = t.Pos()
+					} else {
+						bad = append(bad, fmt.Sprintf("%s: a non-constant character is written into the canonical text", p.pos(t.Pos())))
+					}
+				}
 			}
-			for _, op := range []ssa.Value{bo.X, bo.Y} {
+		}
+	}
+	{
+		{
+			for _, tp := range parts {
+				op := tp.op
+				bo := tp
 				if s, ok := constString(op); ok {
-					consts[s] = bo.Pos()
+					consts[s] = tp.pos
 					continue
 				}
 				if _, isBin := op.(*ssa.BinOp); isBin {
@@ -432,7 +462,7 @@ func rulesExtract(p *Prog, r *Report, eng *Engine) {
 					}
 				}
 				if !okSrc {
-					bad = append(bad, fmt.Sprintf("%s: text part %s is not a canonical field of the node", p.pos(bo.Pos()), pv))
+					bad = append(bad, fmt.Sprintf("%s: text part %s is not a canonical field of the node", p.pos(bo.pos), pv))
 				}
 			}
 		}
